@@ -62,6 +62,52 @@ def _has_quantifier(t, _cache={}):
     return r
 
 
+def _consts_of(terms, _cache={}):
+    """names of the uninterpreted symbols occurring in a list of terms."""
+    out = set()
+    seen = set()
+    stack = list(terms)
+    while stack:
+        t = stack.pop()
+        i = t.get_id()
+        if i in seen:
+            continue
+        seen.add(i)
+        if z3.is_quantifier(t):
+            stack.append(t.body())
+            continue
+        if z3.is_app(t):
+            if t.decl().kind() == z3.Z3_OP_UNINTERPRETED:
+                out.add(t.decl().name())
+            stack.extend(t.children())
+    return out
+
+
+def _fresh_symbols(term, known, k):
+    """constants / functions of `term` created while the loop body ran (names carry '#') that the head state does not know."""
+    consts, fns = {}, {}
+    seen = set()
+    stack = [term]
+    while stack:
+        t = stack.pop()
+        i = t.get_id()
+        if i in seen:
+            continue
+        seen.add(i)
+        if z3.is_quantifier(t):
+            stack.append(t.body())
+            continue
+        if z3.is_app(t):
+            d = t.decl()
+            if d.kind() == z3.Z3_OP_UNINTERPRETED and '#' in d.name() and d.name() not in known and not t.eq(k):
+                if d.arity() == 0:
+                    consts[d.name()] = t
+                else:
+                    fns[d.name()] = d
+            stack.extend(t.children())
+    return list(consts.values()), fns
+
+
 def dead(st):
     return any(z3.is_false(c) for c in st.pc)
 
@@ -355,6 +401,14 @@ class Flow:
         ordn = exe.loop_ord[fn].get(n['id'])
         con = exe.contracts.get(fn, {}).get('loops', {})
         lc = con.get(ordn)
+        if lc is None and n['kind'] == 'ForStmt':
+            # loops may also be keyed by the name of the variable their init statement declares ('ivar:b'), which survives
+            # the insertion of other loops before them
+            init = n['inner'][0]
+            if init and init.get('kind') == 'DeclStmt':
+                for d in init.get('inner', []):
+                    if d['kind'] == 'VarDecl' and ('ivar:' + d.get('name', '')) in con:
+                        lc = con['ivar:' + d['name']]
         if isinstance(lc, (list, tuple)):
             # alternative formulations of the same abstraction: the first one whose names bind to the current code
             from .cexpr import eval_clauses, SpecError
@@ -399,6 +453,10 @@ class Flow:
         ordn, lc = self._loop_contract(n)
         if lc is not None and lc.get('cut_unroll'):
             return self._unroll(n, st, cond, body, inc, is_do, lc.get('unroll', MAX_UNROLL), cut=lc, ordn=ordn)
+        if lc is not None and lc.get('search'):
+            return self._search(n, st, cond, body, inc, is_do, ordn, lc)
+        if lc is None and exe.contracts.get(exe.fn_stack[-1], {}).get('auto_search'):
+            return self._search(n, st, cond, body, inc, is_do, ordn, {})
         if lc is None or lc.get('unroll'):
             return self._unroll(n, st, cond, body, inc, is_do, (lc or {}).get('unroll', MAX_UNROLL))
         return self._cutpoint(n, st, cond, body, inc, is_do, ordn, lc)
@@ -600,33 +658,10 @@ class Flow:
                         isn = z3.Bool('%s%s.isnull@%s' % (obj.name, ''.join('.' + x for x in path), s1.gen))
                     s1.conc[k] = v.with_(idx=v.idx[:-1] + (nidx,), isnull=isn)
 
-    def _cutpoint(self, n, st, cond, body, inc, is_do, ordn, lc):
-        from .cexpr import eval_clauses
+    def _iterate(self, s, cond, body, inc, is_do):
+        """one arbitrary iteration from the (havocked, invariant-assuming) head state: (exit outcomes, continuing states)."""
         exe = self.exe
-        fn = exe.fn_stack[-1]
-        tag = 'L%d' % ordn
-        base = '%s/loop%d' % (fn, ordn)
-        inv = lc.get('invariant', {})
-        # 1. invariant on entry
-        if not self.discovery:
-            for cname, term in eval_clauses(exe, inv, st, fn, loop_entry=st):
-                exe.emit('%s/entry/%s' % (base, cname), term, st, kind='inv')
-        # 2. frame + havoc
-        H = self._discover_writes(st, cond, body, inc, is_do)
-        entry = st
-        head = st.fork()
-        self._havoc_set(head, H, tag)
-        if self.discovery:
-            # an enclosing loop's frame discovery must see what this loop may write (its iterations end at the cut point)
-            head.ghost['$w'] = head.ghost.get('$w', frozenset()) | frozenset(h for h in H if h[1] is not None)
-        for cname, term in eval_clauses(exe, inv, head, fn, loop_entry=entry):
-            head.assume(term)
-        var0 = None
-        if lc.get('variant') is not None:
-            var0 = eval_clauses(exe, {'v': lc['variant']}, head, fn, loop_entry=entry, raw=True)[0][1]
-        # 3. one arbitrary iteration
         exits = []
-        s = head
         conts = []
         if not is_do and cond is not None:
             c = simp(exe.cond(cond, s))
@@ -659,6 +694,117 @@ class Flow:
                     exits.append(Outcome('next', o.st))
                 else:
                     exits.append(o)
+        return exits, conts
+
+    # -- search-loop template ---------------------------------------------------------------
+    def _search(self, n, st, cond, body, inc, is_do, ordn, lc):
+        """Loops of the shape `for (i = lo; cond(i); i++) { reads; locals; return/break on a condition }`.
+        The inductive invariant is generated, not written:  lo <= i  and  forall k in [lo, i): C(k), where C(k) is the
+        condition, obtained by executing the body once at a symbolic index k, under which iteration k reaches the loop
+        head again.  It holds on entry (empty range) and is preserved by construction (an iteration that continues has
+        satisfied C(i)); the shape conditions that make this sound are checked mechanically here: the increment is
+        `i++`, the body does not write i, and everything an iteration writes is a local declared inside the body.
+        Values that are fresh per iteration (merge nodes, callee results) become Skolem functions of k."""
+        exe = self.exe
+        fn = exe.fn_stack[-1]
+        if exe.sem.int_mode != 'math' or is_do or cond is None or inc is None:
+            raise FrontEndError('search-loop template needs a for/while loop with condition and increment in math mode (loop %d of %s)' % (ordn, fn))
+        e = inc
+        while e['kind'] in ('ParenExpr', 'ImplicitCastExpr'):
+            e = e['inner'][0]
+        if not (e['kind'] == 'UnaryOperator' and e.get('opcode') == '++' and e['inner'][0]['kind'] == 'DeclRefExpr'):
+            raise FrontEndError('search-loop template: increment of loop %d in %s is not i++' % (ordn, fn))
+        ivd = e['inner'][0]['referencedDecl']['id']
+        iobj = exe.local_objs.get(ivd)
+        if iobj is None:
+            raise FrontEndError('search-loop template: induction variable of loop %d in %s is not a local' % (ordn, fn))
+        iptr = Ptr(iobj, (0,), (), iobj.ct)
+        body_decls = {c['id'] for c in walk(body) if c['kind'] == 'VarDecl'}
+        H = self._discover_writes(st, cond, body, inc, False)
+        Hb = self._discover_writes(st, cond, body, None, False)
+        for (oid, path) in H:
+            o = exe.obj_by_id[oid]
+            if o is iobj:
+                continue
+            if path is not None and not (o.kind == 'local' and o.meta.get('decl', {}).get('id') in body_decls):
+                raise FrontEndError('loop %d of %s is not a pure search loop (an iteration writes %s%s): it needs a written invariant'
+                                    % (ordn, fn, o.name, ''.join('.' + x for x in path)))
+        if any(oid == iobj.id and path is not None for (oid, path) in Hb):
+            raise FrontEndError('search-loop template: body of loop %d in %s writes its induction variable' % (ordn, fn))
+        lo = st.load(iptr)
+        head = st.fork()
+        self._havoc_set(head, H, 'L%d' % ordn)
+        if self.discovery:
+            head.ghost['$w'] = head.ghost.get('$w', frozenset()) | frozenset(h for h in H if h[1] is not None)
+        # pass 1: C(k)
+        exe.nsym += 1
+        k = z3.Int('k!L%d#%d' % (ordn, exe.nsym))
+        s1 = head.fork()
+        s1.store(iptr, k)
+        n0 = len(s1.pc)
+        s1.assume(lo <= k)
+        self.discovery += 1
+        saved_errors = list(exe.errors)
+        prev_log, self.write_log = self.write_log, set()
+        try:
+            c = simp(exe.cond(cond, s1))
+            s1.assume(c)
+            conts = [o.st for o in self.exec_stmt(body, s1) if o.kind in ('next', 'continue')] if not dead(s1) else []
+        finally:
+            self.discovery -= 1
+            exe.errors = saved_errors
+            self.write_log = prev_log
+        Ck = simp(z3.Or(*[z3.And(*s.pc[n0:]) for s in conts])) if conts else z3.BoolVal(False)
+        known = _consts_of(head.pc)
+        fresh, fresh_fns = _fresh_symbols(Ck, known, k)
+        if fresh_fns:
+            # Skolem functions of a generated invariant nested in this body depend on this loop's index as well:
+            # F(j) becomes F'(j, k)
+            subs = []
+            for d in fresh_fns.values():
+                dom = [d.domain(i) for i in range(d.arity())]
+                g = z3.Function('%s~L%d' % (d.name(), ordn), *(dom + [z3.IntSort(), d.range()]))
+                subs.append((d, g(*([z3.Var(i, dom[i]) for i in range(d.arity())] + [k]))))
+            Ck = z3.substitute_funs(Ck, *subs)
+        if fresh:
+            Ck = z3.substitute(Ck, *[(f, z3.Function('sk(%s)' % f.decl().name(), z3.IntSort(), f.sort())(k)) for f in fresh])
+        kb = z3.Int('kq!L%d' % ordn)
+        i_val = head.load(iptr)
+        head.assume(lo <= i_val)
+        if not z3.is_false(Ck):
+            head.assume(z3.ForAll([kb], z3.Implies(z3.And(lo <= kb, kb < i_val), z3.substitute(Ck, (k, kb)))))
+        else:
+            head.assume(i_val == lo)
+        # pass 2: one arbitrary iteration under the generated invariant (obligations inside the body are emitted here)
+        exits, conts2 = self._iterate(head, cond, body, inc, False)
+        return merge_outcomes(exits)
+
+    def _cutpoint(self, n, st, cond, body, inc, is_do, ordn, lc):
+        from .cexpr import eval_clauses
+        exe = self.exe
+        fn = exe.fn_stack[-1]
+        tag = 'L%d' % ordn
+        base = '%s/loop%d' % (fn, ordn)
+        inv = lc.get('invariant', {})
+        # 1. invariant on entry
+        if not self.discovery:
+            for cname, term in eval_clauses(exe, inv, st, fn, loop_entry=st):
+                exe.emit('%s/entry/%s' % (base, cname), term, st, kind='inv')
+        # 2. frame + havoc
+        H = self._discover_writes(st, cond, body, inc, is_do)
+        entry = st
+        head = st.fork()
+        self._havoc_set(head, H, tag)
+        if self.discovery:
+            # an enclosing loop's frame discovery must see what this loop may write (its iterations end at the cut point)
+            head.ghost['$w'] = head.ghost.get('$w', frozenset()) | frozenset(h for h in H if h[1] is not None)
+        for cname, term in eval_clauses(exe, inv, head, fn, loop_entry=entry):
+            head.assume(term)
+        var0 = None
+        if lc.get('variant') is not None:
+            var0 = eval_clauses(exe, {'v': lc['variant']}, head, fn, loop_entry=entry, raw=True)[0][1]
+        # 3. one arbitrary iteration
+        exits, conts = self._iterate(head, cond, body, inc, is_do)
         if not self.discovery:
             for i, s2 in enumerate(conts):
                 for cname, term in eval_clauses(exe, inv, s2, fn, loop_entry=entry):
